@@ -4,4 +4,4 @@ From AN Require Import Model.Avail Model.Srv Model.Builder Model.SrvE2E.
 Extraction Language OCaml.
 Extraction "../ocaml/server/gen.ml" Srv.init Srv.step Srv.run Avail.get Avail.set Avail.available Avail.empty Avail.offset
   Builder.build Builder.empty Builder.worker_services Builder.service_for Builder.accept_socket
-  SrvE2E.e2e_step SrvE2E.e2e_ops.
+  SrvE2E.e2e_step SrvE2E.e2e_ops SrvE2E.e2e_step_ab.
